@@ -146,6 +146,16 @@ def translate(coords, dx, dy):
     return {k: (x + dx, y + dy, data) for k, (x, y, data) in coords.items()}
 
 
+def clip_cursor(coords, cols, nrows):
+    """A cursor moves with the cell it belongs to; when a trim removes that cell the cursor goes with it
+    (a canvas never reports a cursor outside itself: property C01, "a cursor, if present, lies inside the
+    canvas"; urwid fix: commit 9d24e62).  Pop-ups are anchored, not contained, and stay."""
+    c = coords.get("cursor")
+    if c is not None and not (0 <= c[0] < cols and 0 <= c[1] < nrows):
+        coords = {k: v for k, v in coords.items() if k != "cursor"}
+    return coords
+
+
 def wrap(g):
     """CompositeCanvas(c): same cells, same coordinates."""
     return Grid(g.rows, g.cols, g.coords, g.cuts)
@@ -158,13 +168,13 @@ def trim(g, top, count=None):
     if count is not None and count < 0:
         raise ValueError("trim: negative count")
     end = g.nrows if count is None else min(g.nrows, top + count)
-    return Grid(g.rows[top:end], g.cols, translate(g.coords, 0, -top), g.cuts)
+    return Grid(g.rows[top:end], g.cols, clip_cursor(translate(g.coords, 0, -top), g.cols, end - top), g.cuts)
 
 
 def trim_end(g, end):
     if not 0 < end <= g.nrows:
         raise ValueError("trim_end: amount outside the canvas")
-    return Grid(g.rows[: g.nrows - end], g.cols, g.coords, g.cuts)
+    return Grid(g.rows[: g.nrows - end], g.cols, clip_cursor(g.coords, g.cols, g.nrows - end), g.cuts)
 
 
 def pad_trim_left_right(g, left, right):
@@ -179,7 +189,10 @@ def pad_trim_left_right(g, left, right):
         seg, c = cut_row(r, a, b)
         cuts += c
         rows.append([space()] * max(0, left) + seg + [space()] * max(0, right))
-    return Grid(rows, g.cols + left + right, translate(g.coords, left, 0), cuts)
+    coords = translate(g.coords, left, 0)
+    if left < 0 or right < 0:
+        coords = clip_cursor(coords, g.cols + left + right, g.nrows)
+    return Grid(rows, g.cols + left + right, coords, cuts)
 
 
 def pad_trim_top_bottom(g, top, bottom):
@@ -189,7 +202,10 @@ def pad_trim_top_bottom(g, top, bottom):
         raise ValueError("pad_trim_top_bottom: trims more than the height")
     blank = tuple([space()] * g.cols)
     rows = [blank] * max(0, top) + list(g.rows[a:b]) + [blank] * max(0, bottom)
-    return Grid(rows, g.cols, translate(g.coords, 0, top), g.cuts)
+    coords = translate(g.coords, 0, top)
+    if top < 0 or bottom < 0:
+        coords = clip_cursor(coords, g.cols, len(rows))
+    return Grid(rows, g.cols, coords, g.cuts)
 
 
 def fill_attr_apply(g, mapping):
@@ -260,7 +276,9 @@ def join(items):
 def join_coord_parts(items):
     parts, x = [], 0
     for g, c in items:
-        parts.append(translate(g.coords, x, 0))
+        # an operand narrower slot trims it on the right: a cursor in the trimmed part goes with its cell
+        gc = clip_cursor(g.coords, c, g.nrows) if c < g.cols else g.coords
+        parts.append(translate(gc, x, 0))
         x += c
     return parts
 
